@@ -54,7 +54,13 @@ func subQueryText(fr *FuncResult, o *Obligation, sg *SubGoal) string {
 			b.WriteByte('\n')
 		}
 	}
-	for _, l := range sliceScript(fr.Script[:sg.Prefix], sg, cover) {
+	var body []string
+	if o.localSlice && !cover {
+		body = sliceLocal(fr.Script[:sg.Prefix], sg)
+	} else {
+		body = sliceScript(fr.Script[:sg.Prefix], sg, cover)
+	}
+	for _, l := range body {
 		b.WriteString(l)
 		b.WriteByte('\n')
 	}
@@ -127,6 +133,26 @@ func discharge(fr *FuncResult, o *Obligation, dir string, timeoutMs int, idx int
 		}
 		o.Seconds = time.Since(t0).Seconds()
 		return
+	}
+	if o.Expect != "sat" && !o.noLocal {
+		// tier 1: local slice, z3-new only, short budget
+		o.localSlice = true
+		q1 := queryText(fr, o)
+		o.localSlice = false
+		f1 := filepath.Join(dir, fmt.Sprintf("q%06d_l.smt2", idx))
+		if os.WriteFile(f1, []byte(q1), 0o644) == nil {
+			b1 := timeoutMs
+			if b1 > 3000 {
+				b1 = 3000
+			}
+			t1 := time.Now()
+			r1 := runSolver(solvers[0], f1, b1)
+			os.Remove(f1)
+			if r1.status == "unsat" {
+				o.Status, o.Solver, o.Seconds, o.Output = "unsat", "z3-new(local)", time.Since(t1).Seconds(), r1.out
+				return
+			}
+		}
 	}
 	q := queryText(fr, o)
 	if len(q) > 8<<20 {
@@ -227,6 +253,102 @@ func scratchRoot() string {
 // sliceScript keeps every plain assumption, and of the definitional lines
 // "(assert (= sym term))" and quantified array axioms only those whose defined
 // symbol is (transitively) referenced.  Dropping assumptions is always sound.
+func isUbiquitous(sym string) bool {
+	return strings.HasPrefix(sym, "p!") || sym == "alloc0" || strings.HasPrefix(sym, "al!") || strings.HasPrefix(sym, "alloc!") ||
+		strings.HasPrefix(sym, "bc!") || strings.HasPrefix(sym, "c!") || strings.HasPrefix(sym, "(") || isSMTKeyword(sym)
+}
+
+var smtKeywords = map[string]bool{"assert": true, "and": true, "or": true, "not": true, "ite": true, "select": true, "store": true, "forall": true, "exists": true,
+	"let": true, "true": true, "false": true, "as": true, "const": true, "Array": true, "BitVec": true, "_": true, "concat": true, "extract": true,
+	"zero_extend": true, "sign_extend": true, "distinct": true, "pattern": true, "Bool": true}
+
+func isSMTKeyword(s string) bool {
+	return smtKeywords[s] || strings.HasPrefix(s, "bv") || strings.HasPrefix(s, "fp.") || s == "RNE" || s == "RTZ" || s == "to_fp"
+}
+
+// sliceLocal is the aggressive first-tier slice: definitions by need, and only
+// those assumptions that mention a (non-ubiquitous) symbol the goal depends on,
+// for two rounds.  Dropping assumptions is sound; if the goal is not proved
+// with this slice the full slice is tried.
+func sliceLocal(lines []string, o *SubGoal) []string {
+	type cls struct {
+		def  string
+		syms []string
+	}
+	info := make([]cls, len(lines))
+	for i, l := range lines {
+		c := cls{syms: smtSymbols(l)}
+		if strings.HasPrefix(l, "(assert (= ") {
+			rest := l[len("(assert (= "):]
+			if j := strings.IndexByte(rest, ' '); j > 0 && rest[0] != '(' {
+				sym := rest[:j]
+				if strings.ContainsAny(sym, "!") && !strings.HasPrefix(sym, "p!") {
+					c.def = sym
+				}
+			}
+		}
+		info[i] = c
+	}
+	relevant := map[string]bool{}
+	add := func(text string) {
+		for _, s := range smtSymbols(text) {
+			relevant[s] = true
+		}
+	}
+	add(o.Goal)
+	add(o.Cond)
+	for _, e := range o.Extra {
+		add(e)
+	}
+	included := make([]bool, len(lines))
+	closeDefs := func() {
+		for changed := true; changed; {
+			changed = false
+			for i, c := range info {
+				if included[i] || c.def == "" || !relevant[c.def] {
+					continue
+				}
+				included[i] = true
+				changed = true
+				for _, s := range c.syms {
+					relevant[s] = true
+				}
+			}
+		}
+	}
+	closeDefs()
+	for round := 0; round < 2; round++ {
+		var newSyms []string
+		for i, c := range info {
+			if included[i] || c.def != "" {
+				continue
+			}
+			hit := false
+			for _, s := range c.syms {
+				if relevant[s] && !isUbiquitous(s) {
+					hit = true
+					break
+				}
+			}
+			if hit {
+				included[i] = true
+				newSyms = append(newSyms, c.syms...)
+			}
+		}
+		for _, s := range newSyms {
+			relevant[s] = true
+		}
+		closeDefs()
+	}
+	var out []string
+	for i, l := range lines {
+		if included[i] {
+			out = append(out, l)
+		}
+	}
+	return out
+}
+
 func sliceScript(lines []string, o *SubGoal, cover bool) []string {
 	type cls struct {
 		def   string
